@@ -187,6 +187,90 @@ def h_check_max_depth(i):
     return {"reproduced": got != exp, "observed": got, "expected": exp}
 
 
+# ---------------------------------------------------------------- worker (C04, C07, C18, C19)
+class _Lock:
+    def __init__(self, ok=True):
+        self.ok = ok
+        self.events = []
+
+    def acquire(self, *a, **k):
+        self.events.append("acquire")
+        return self.ok
+
+    def release(self):
+        self.events.append("release")
+
+    def __enter__(self):
+        return self.acquire()
+
+    def __exit__(self, *a):
+        self.release()
+
+
+def h_worker_depth(i):
+    """C19: the depth seen by the initializer must be the shipped depth."""
+    import loky.process_executor as pe
+    seen = {}
+
+    def init():
+        seen["initializer"] = pe._CURRENT_DEPTH
+
+    class CQ:
+        def get(self, block=True, timeout=None):
+            return None
+
+    class RQ:
+        def put(self, x):
+            pass
+    depth = i.get("current_depth", 3)
+    if not isinstance(depth, int) or depth < 1:
+        depth = 3
+    with mock.patch.object(pe, "_CURRENT_DEPTH", 0), mock.patch.object(pe, "_python_exit", lambda: None):
+        pe._process_worker(CQ(), RQ(), init, (), _Lock(), None, _Lock(), depth)
+    return {"reproduced": seen.get("initializer") != depth,
+            "observed": {"depth_seen_by_initializer": seen.get("initializer")}, "expected": {"depth_seen_by_initializer": depth}}
+
+
+def h_worker_task_failure(i):
+    """C04: a task whose exception cannot be sent must not take the worker down."""
+    import pickle
+    import loky.process_executor as pe
+
+    class Boom(Exception):
+        pass
+
+    def task():
+        raise Boom("task failed")
+    item = pe._CallItem(7, task, (), {})
+    gets = [item, None]
+
+    class CQ:
+        def get(self, block=True, timeout=None):
+            return gets.pop(0)
+    sent = []
+
+    class RQ:
+        def __init__(self):
+            self.first = True
+
+        def put(self, x):
+            # the task's exception object is not picklable: the first attempt to send it fails
+            exc = getattr(x, "exception", None)
+            if isinstance(exc, pe._ExceptionWithTraceback) and isinstance(exc.exc, Boom):
+                raise pickle.PicklingError("cannot pickle Boom")
+            sent.append(x)
+    died = None
+    with mock.patch.object(pe, "_python_exit", lambda: None), mock.patch.object(pe, "_USE_PSUTIL", False):
+        try:
+            pe._process_worker(CQ(), RQ(), None, (), _Lock(), None, _Lock(), 1)
+        except BaseException as e:
+            died = f"{type(e).__name__}: {e}"
+    answers = [x for x in sent if isinstance(x, pe._ResultItem) and x.work_id == 7]
+    return {"reproduced": died is not None or len(answers) != 1,
+            "observed": {"worker_died_with": died, "answers_for_task_7": len(answers)},
+            "expected": {"worker_died_with": None, "answers_for_task_7": 1}}
+
+
 def main():
     name, inputs, repo = sys.argv[1], json.loads(sys.argv[2]), sys.argv[3]
     sys.path.insert(0, repo)
